@@ -70,12 +70,12 @@ Proof.
 Qed.
 
 Lemma min_part_fits s v d :
-  max_not_zero_with_min s = true -> multiple_satisfiable s = true ->
+  multiple_satisfiable s = true ->
   In (Some v, d) (fst (min_part s)) -> fits s v.
 Proof.
-  unfold max_not_zero_with_min, multiple_satisfiable, min_part, fits.
-  destruct (eff_min s) as [a|]; [|intros _ _ []].
-  intros Hz Hs Hin.
+  unfold multiple_satisfiable, min_part, min_part_with, fits. cbn [andb orb].
+  destruct (eff_min s) as [a|]; [|intros _ []].
+  intros Hs Hin.
   apply andb_true_iff in Hs. destruct Hs as [Hpos Hsat].
   destruct (n_mult s) as [m|].
   - apply Z.ltb_lt in Hpos.
@@ -83,10 +83,10 @@ Proof.
     set (sm := closest_multiple_greater_than a m) in *.
     assert (Hv : (v = sm) \/ (v = sm + m /\ forall b, eff_max s = Some b -> sm + m <= b)).
     { destruct (eff_max s) as [b|].
-      - destruct (negb (inb (sm + m) [sm]) && ((b =? 0) || (sm + m <=? b))) eqn:E; cbn [fst] in Hin.
+      - destruct (negb (inb (sm + m) [sm]) && (sm + m <=? b)) eqn:E; cbn [fst] in Hin.
         + destruct Hin as [H|[H|[]]]; inversion H; subst; [left; reflexivity|right; split; [reflexivity|]].
           intros b' Hb'. inversion Hb'; subst b'.
-          apply andb_true_iff in E. destruct E as [_ E]. apply negb_true_iff in Hz. rewrite Hz in E. cbn in E. lia.
+          apply andb_true_iff in E. destruct E as [_ E]. lia.
         + destruct Hin as [H|[]]; inversion H; subst; left; reflexivity.
       - destruct (negb (inb (sm + m) [sm]) && true) eqn:E; cbn [fst] in Hin.
         + destruct Hin as [H|[H|[]]]; inversion H; subst; [left; reflexivity|right; split; [reflexivity|]].
@@ -101,10 +101,10 @@ Proof.
       intros m' Hm'; inversion Hm'; subst. apply plus_mod; assumption.
   - assert (Hv : (v = a) \/ (v = a + 1 /\ forall b, eff_max s = Some b -> a + 1 <= b)).
     { destruct (eff_max s) as [b|].
-      - destruct (negb (inb (a + 1) [a]) && ((b =? 0) || (a + 1 <=? b))) eqn:E; cbn [fst] in Hin.
+      - destruct (negb (inb (a + 1) [a]) && (a + 1 <=? b)) eqn:E; cbn [fst] in Hin.
         + destruct Hin as [H|[H|[]]]; inversion H; subst; [left; reflexivity|right; split; [reflexivity|]].
           intros b' Hb'. inversion Hb'; subst b'.
-          apply andb_true_iff in E. destruct E as [_ E]. apply negb_true_iff in Hz. rewrite Hz in E. cbn in E. lia.
+          apply andb_true_iff in E. destruct E as [_ E]. lia.
         + destruct Hin as [H|[]]; inversion H; subst; left; reflexivity.
       - destruct (negb (inb (a + 1) [a]) && true) eqn:E; cbn [fst] in Hin.
         + destruct Hin as [H|[H|[]]]; inversion H; subst; [left; reflexivity|right; split; [reflexivity|]].
@@ -183,13 +183,13 @@ Qed.
 
 Lemma positive_numbers_valid_partial : forall s ok v d,
   numeric_exclusive s = true -> exclusive_dominates s = true ->
-  max_not_zero_with_min s = true -> multiple_satisfiable s = true ->
+  multiple_satisfiable s = true ->
   In (Some v, d) (fst (positive_number_plan s ok)) -> authored d = false ->
   num_valid s v = true.
 Proof.
-  intros s ok v d Hn Hd Hz Hs Hin Ha.
+  intros s ok v d Hn Hd Hs Hin Ha.
   apply fits_valid; [assumption|assumption|].
-  unfold positive_number_plan in Hin.
+  unfold positive_number_plan, positive_number_plan_with in Hin. fold (min_part s) in Hin.
   destruct (needs_draw s && negb ok); [destruct Hin|].
   match type of Hin with In _ (fst (if ?c then _ else _)) => destruct c end; cbn [fst] in Hin.
   - apply head_items_authored in Hin. congruence.
@@ -197,7 +197,7 @@ Proof.
     apply in_app_or in Hin. destruct Hin as [Hin|Hin].
     + apply head_items_authored in Hin. congruence.
     + apply in_app_or in Hin. destruct Hin as [Hin|Hin].
-      * apply (min_part_fits s v d Hz Hs). rewrite Em. exact Hin.
+      * apply (min_part_fits s v d Hs). rewrite Em. exact Hin.
       * apply (max_part_fits s seen v d Hs Hin).
 Qed.
 
@@ -214,28 +214,40 @@ Definition w_good := mk_num (Some 3) (Some 20) None None (Some 4).              
 Definition refutes (s : num_schema) (v : Z) (d : ndesc) (rest : Prop) : Prop :=
   In (Some v, d) (fst (positive_number_plan s true)) /\ authored d = false /\ num_valid s v = false /\ rest.
 
-Lemma refuted_zero : refutes w_zero 1 DNear
-  (numeric_exclusive w_zero = true /\ exclusive_dominates w_zero = true /\ multiple_satisfiable w_zero = true).
-Proof. unfold refutes. vm_compute. intuition. Qed.
+(* regression sentinel for the fixed finding C03-F1: the planner before commit 0b606a31 yields 1
+   for minimum 0, maximum 0; the repaired planner yields the valid 0 only, and w_zero lies in every
+   region of the theorem *)
+Lemma legacy_max_zero_refuted :
+  In (Some 1, DNear) (fst (positive_number_plan_legacy w_zero true)) /\ authored DNear = false /\ num_valid w_zero 1 = false /\
+  numeric_exclusive w_zero = true /\ exclusive_dominates w_zero = true /\ multiple_satisfiable w_zero = true /\
+  max_not_zero_with_min w_zero = false /\
+  fst (positive_number_plan w_zero true) = [(None, DValid); (Some 0, DMinimum)].
+Proof. vm_compute. intuition. Qed.
+(* a bound 0 with a step: minimum -1, maximum 0, multipleOf 5 (legacy: 0 and 5; repaired: 0) *)
+Definition w_zero_step := mk_num (Some (-1)) (Some 0) None None (Some 5).
+Lemma zero_bounds_now_valid :
+  fst (positive_number_plan w_zero_step true) = [(Some 0, DMinimum)] /\
+  In (Some 5, DNear) (fst (positive_number_plan_legacy w_zero_step true)).
+Proof. vm_compute. intuition. Qed.
 Lemma refuted_bool : refutes w_bool 2 DMinimum
-  (max_not_zero_with_min w_bool = true /\ multiple_satisfiable w_bool = true).
+  (multiple_satisfiable w_bool = true).
 Proof. unfold refutes. vm_compute. intuition. Qed.
 (* minimum 2, exclusiveMinimum true: inside every other region *)
 Definition w_bool2 := mk_num (Some 2) None (Some (PBool true)) None None.
 Lemma refuted_bool2 : refutes w_bool2 2 DMinimum
-  (exclusive_dominates w_bool2 = true /\ max_not_zero_with_min w_bool2 = true /\ multiple_satisfiable w_bool2 = true).
+  (exclusive_dominates w_bool2 = true /\ multiple_satisfiable w_bool2 = true).
 Proof. unfold refutes. vm_compute. intuition. Qed.
 Lemma refuted_mult : refutes w_mult 8 DMinimum
-  (numeric_exclusive w_mult = true /\ exclusive_dominates w_mult = true /\ max_not_zero_with_min w_mult = true).
+  (numeric_exclusive w_mult = true /\ exclusive_dominates w_mult = true).
 Proof. unfold refutes. vm_compute. intuition. Qed.
 Lemma refuted_both : refutes w_both 4 DMinimum
-  (numeric_exclusive w_both = true /\ max_not_zero_with_min w_both = true /\ multiple_satisfiable w_both = true).
+  (numeric_exclusive w_both = true /\ multiple_satisfiable w_both = true).
 Proof. unfold refutes. vm_compute. intuition. Qed.
 
 (* non-vacuity: a schema in every region whose plan has four checked values *)
 Lemma good_hyps :
   numeric_exclusive w_good = true /\ exclusive_dominates w_good = true /\
-  max_not_zero_with_min w_good = true /\ multiple_satisfiable w_good = true /\
+  multiple_satisfiable w_good = true /\
   fst (positive_number_plan w_good true) = [(Some 4, DMinimum); (Some 8, DNear); (Some 20, DMaximum); (Some 16, DNear)].
 Proof. vm_compute. intuition. Qed.
 
